@@ -182,7 +182,7 @@ PARTS = [
     Part("single-fault-sweep", "enum", check, cases=sweep_cases, exhaustive=True),
     Part("deserialiser-failures", "enum", check_serde_failure, cases=serde_failure_cases, exhaustive=True),
     Part("random-histories", "hyp", check, strategy=history_strategy, minimise=None,
-         examples={"quick": 400, "thorough": 4000}, shards={"quick": 6, "thorough": 16}),
+         examples={"quick": 400, "thorough": 15000}, shards={"quick": 6, "thorough": 16}),
 ]
 
 
